@@ -310,6 +310,12 @@ func genGoodLit(r *core.Rng, t reflect.Type, mapper int, depth int) lit {
 		if t == typTime || hasAnonymous(t) || depth <= 0 {
 			return lit{JS: "null", Kind: "null"} // null → zero value; not claimed for structs (doc silent)
 		}
+		if inPlacePtr(t) {
+			// structs and arrays are converted in place: existing pointers inside them are written through, and those may
+			// be shared with other locations — the result is then not a function of the literal alone
+			l := genGoodLitUnknown(r, t, mapper, depth)
+			return l
+		}
 		fs := visibleFields(t, mapper)
 		type kv struct{ k, js, v string }
 		var items []kv
@@ -410,6 +416,9 @@ func genGoodLit(r *core.Rng, t reflect.Type, mapper int, depth int) lit {
 		if depth <= 0 {
 			return lit{JS: "null", Kind: "null"}
 		}
+		if t.Kind() == reflect.Array && inPlacePtr(t) {
+			return genGoodLitUnknown(r, t, mapper, depth)
+		}
 		n := r.Intn(4)
 		if t.Kind() == reflect.Array {
 			n = t.Len()
@@ -441,6 +450,49 @@ func genGoodLit(r *core.Rng, t reflect.Type, mapper int, depth int) lit {
 }
 
 func isFuncKind(t reflect.Type) bool { return t.Kind() == reflect.Func }
+
+// inPlacePtr: a value of type t holds pointers that an in-place conversion writes through (directly or in nested structs/arrays).
+func inPlacePtr(t reflect.Type) bool {
+	switch t.Kind() {
+	case reflect.Ptr:
+		return t != typBigInt
+	case reflect.Array:
+		return inPlacePtr(t.Elem())
+	case reflect.Struct:
+		if t == typTime {
+			return false
+		}
+		for i := 0; i < t.NumField(); i++ {
+			if inPlacePtr(t.Field(i).Type) {
+				return true
+			}
+		}
+	}
+	return false
+}
+
+// genGoodLitUnknown: a well-typed literal for t without a claimed result (laws 4 and 9 still apply to the write).
+func genGoodLitUnknown(r *core.Rng, t reflect.Type, mapper int, depth int) lit {
+	var l lit
+	switch t.Kind() {
+	case reflect.Struct:
+		var parts []string
+		for _, f := range visibleFields(t, mapper) {
+			if f.Type.Kind() == reflect.Func {
+				continue
+			}
+			parts = append(parts, jsStr(f.JS)+":"+genGoodLit(r, f.Type, mapper, depth-1).JS)
+		}
+		l = lit{JS: "({" + strings.Join(parts, ",") + "})", Kind: "object"}
+	default:
+		var parts []string
+		for i := 0; i < t.Len(); i++ {
+			parts = append(parts, genGoodLit(r, t.Elem(), mapper, depth-1).JS)
+		}
+		l = lit{JS: "[" + strings.Join(parts, ",") + "]", Kind: "array"}
+	}
+	return l
+}
 
 // genWrongLit: a value whose conversion the documentation declares impossible (primitive → struct / map / slice / array / func),
 // or a harmless odd one (object → number). Fail is claimed only for the clear-cut cases.
